@@ -459,6 +459,17 @@ func Serve(opts Options) error {
 		return err
 	}
 	if opts.AppendOnly {
+		// An AOFSHRINK interrupted between its two renames leaves the complete
+		// live log under the "-bak" name and no log file at all. Put it back
+		// instead of silently starting with an empty dataset.
+		if _, err := os.Stat(opts.AppendFileName); os.IsNotExist(err) {
+			if _, err := os.Stat(opts.AppendFileName + "-bak"); err == nil {
+				log.Warnf("Recovering %s from an interrupted shrink", opts.AppendFileName)
+				if err := os.Rename(opts.AppendFileName+"-bak", opts.AppendFileName); err != nil {
+					return err
+				}
+			}
+		}
 		f, err := os.OpenFile(opts.AppendFileName, os.O_CREATE|os.O_RDWR, 0600)
 		if err != nil {
 			return err
